@@ -739,9 +739,9 @@ bool XMLReader::location()
             std::string l_path = path.str(tag_t::LOCATION);
             /* Extract ID attribute. */
             auto l_id = getAttributeStr("id");
+            read();  // consume the tag first, otherwise the caller's loop never advances past it
             if (is_blank(l_id))
                 throw TypeException{"Every location must have a unique id attribute value"};
-            read();
             /* Get name of the location. */
             std::string l_name = name();
             /* Read the invariant. */
